@@ -445,8 +445,18 @@ def sysconfig_jobs(tier):
     return sliced(mk, nalloc=SYSCONFIG_NALLOC, per=10)
 
 
+def name_oom_jobs(tier):
+    c04 = _load("C04/jobs.py", "c04_jobs_for_c14")
+    out = []
+    for j in c04.name_oom_jobs(tier):
+        j = dict(j); j["harness"] = "../C04/" + j["harness"]
+        out.append(j)
+    return out
+
+
 def jobs(tier, seed):
     J = []
+    J += name_oom_jobs(tier)
     J += machine_reuse_jobs(tier)
     J += sysconfig_jobs(tier)
     J += addrinfo_jobs(tier)
